@@ -102,7 +102,7 @@ class _Bytes:
 class FragmentsEngine(Engine):
     prop = "C11"
     name = "histsim-fragments"
-    tiers = {"quick": 60000, "thorough": 12000000}
+    tiers = {"quick": 60000, "thorough": 6000000}
     chunks = {"quick": 500, "thorough": 20000}
     rule = ("each case is a Chooser-generated history of 1..12 insert/append/extend/cursor-assignment operations on one Fragments "
             "object or two interleaved live ones (profile small: <=12 operations, positions 0..40, chunks 0..6 bytes; long: <=90 operations, "
